@@ -47,6 +47,45 @@ u8* vpx_malloc(u64 n) { u8* p = malloc(n); __CPROVER_assume(p != 0); return p; }
 void vpx_free(u8* p) { free(p); }
 #endif
 
+
+/* ---- exception runtime (DESIGN 3.1): lowering target of invoke/landingpad/resume and the Itanium ABI entry points.
+ * A throw sets the pending pointer vp_exc; calls return early while it is set; a landing pad consumes it.
+ * Exception objects carry a 16-byte header {type_info*, refcount} in front, like the real ABI. */
+#ifndef VP_NO_EXC
+u8* vp_exc;
+int vp_exc_thrown, vp_exc_destroyed;          /* ghost counters for oracles: objects thrown / released */
+#define VP_MAXCAUGHT 4
+#define VP_MAXTHR 4
+static u8* vp_caught[VP_MAXTHR][VP_MAXCAUGHT]; static unsigned vp_ncaught[VP_MAXTHR];
+static u8 vp_rethrown[VP_MAXTHR][VP_MAXCAUGHT];
+#define VP_EXC_TYPE(p) (((u8**)(p))[-2])
+#define VP_EXC_REFS(p) (((u64*)(p))[-1])
+#ifndef VP_EXC_SUBTYPE
+#define VP_EXC_SUBTYPE(thrown, caught) 0      /* harness may define: thrown type_info derives from caught type_info */
+#endif
+int vp_exc_matches(u8* obj, u8* ti) { return obj && (VP_EXC_TYPE(obj) == ti || VP_EXC_SUBTYPE(VP_EXC_TYPE(obj), ti)); }
+void vp_exc_escaped(void) { VP_ASSERT(0, "exception escaped a thread body / noexcept boundary"); }
+u8* vpx___cxa_allocate_exception(u64 n) { u8* p = malloc(n + 16); __CPROVER_assume(p != 0); p += 16; VP_EXC_TYPE(p) = 0; VP_EXC_REFS(p) = 0; return p; }
+void vpx___cxa_free_exception(u8* p) { }
+void vpx___cxa_throw(u8* p, u8* ti, u8* dtor) { VP_EXC_TYPE(p) = ti; vp_exc = p; vp_exc_thrown++; }
+u8* vpx___cxa_begin_catch(u8* p) {
+  unsigned n = vp_ncaught[vp_cur]; VP_ASSERT(n < VP_MAXCAUGHT, "VP bound: nested catch depth");
+  vp_caught[vp_cur][n] = p; vp_rethrown[vp_cur][n] = 0; vp_ncaught[vp_cur] = n + 1; return p; }
+u8* vpx___cxa_get_exception_ptr(u8* p) { return p; }
+void vpx___cxa_end_catch(void) {
+  unsigned n = vp_ncaught[vp_cur]; VP_ASSERT(n > 0, "__cxa_end_catch without begin_catch"); n--; vp_ncaught[vp_cur] = n;
+  u8* p = vp_caught[vp_cur][n];
+  if (!vp_rethrown[vp_cur][n] && VP_EXC_REFS(p) == 0) vp_exc_destroyed++; }
+void vpx___cxa_rethrow(void) {
+  unsigned n = vp_ncaught[vp_cur]; VP_ASSERT(n > 0, "rethrow outside a handler (std::terminate)");
+  vp_rethrown[vp_cur][n - 1] = 1; vp_exc = vp_caught[vp_cur][n - 1]; }
+void _ZSt9terminatev(void) { VP_ASSERT(0, "std::terminate called"); }
+/* the pointer the innermost active handler of the running model thread is handling (0 if none): std::current_exception */
+static u8* vp_exc_current(void) { unsigned n = vp_ncaught[vp_cur]; return n ? vp_caught[vp_cur][n - 1] : 0; }
+/* harness-side throw of a user exception of type token `ti` (any address used as a type_info) */
+static void vp_throw_user(u8* ti) { u8* p = vpx___cxa_allocate_exception(8); vpx___cxa_throw(p, ti, 0); }
+#endif
+
 /* ---- Lazy-CSeq style scheduler (thread-mode units) ---- */
 #ifdef VP_TSO
 #define VP_FL(fn) VP_FL_(fn)
